@@ -4,5 +4,4 @@
    configurations switch one check of the transcription off and MUST violate OnlyValidEnter. *)
 EXTENDS Admission
 MCSpec == Spec
-NCases == Cardinality(Cases)
 ====
